@@ -61,7 +61,29 @@ EXTRA_SRC = {
     "x_ldup": "[1, 1, 2]", "x_sdup": "'aab'", "x_setnested": "<<[1], [2]>>",      # duplicates; collections as members
     "x_ihuge": "1" + "0" * 400,          # an int beyond the range of a decimal
 }
+# round 2: values that are finite data but whose naive traversal is not - an int
+# with more digits than the host renders in one piece, collections that hold
+# themselves (directly, through a second collection, as a member of an object),
+# an object whose `_proto_` chain is a cycle, a list nested deeper than the
+# host's stack, collections keyed by a list that was changed afterwards
+GRAPH_SRC = {
+    "x_i5000": "1" + "0" * 4000 + " * 1" + "0" * 1000,
+    "x_lhugedec": "[1" + "0" * 400 + ", 0.5]",
+    "x_dint": "decimal(1" + "0" * 400 + ")",
+    "x_lself": "do def l = [1]; append(l, l); l end",
+    "x_lmutual": "do def a = [1]; def b = [a]; append(a, b); a end",
+    "x_mself": "do def m = <<<'a' => 1>>>; m['k'] = m; m end",
+    "x_oself": "do def o = <*a = 1*>; o->self = o; o end",
+    "x_setself": "do def s = <<1>>; append(s, s); s end",
+    "x_ocyc": "do def o = <*a = 1*>; o['_proto_'] = o; o end",
+    "x_ocyc2": "do def o = <*a = 1*>; def q = <*_proto_ = o*>; o['_proto_'] = q; q end",
+    "x_ldeep": "do def x = 1; for i in range(3000) do x = [x] end; x end",
+    "x_mlistkey": "do def l = [1]; def m = <<<>>>; m[l] = 1; append(l, 2); m end",
+    "x_setlistmem": "do def l = [1]; def s = <<l>>; append(l, 2); s end",
+}
+EXTRA_SRC.update(GRAPH_SRC)
 EXTRA_TAGS = sorted(EXTRA_SRC)
+HUGE_TAGS = ("big", "x_ihuge", "x_i5000")      # replaced by 10^4 in the scaled re-run
 
 ALARM_S = 2
 ISOLATED_S = 10
@@ -407,7 +429,7 @@ def make_sandbox():
 
 def scaled_job(job):
     kind, what, tags = job
-    return (kind, what, tuple("scaled-big" if t in ("big", "x_ihuge") else t for t in tags))
+    return (kind, what, tuple("scaled-big" if t in HUGE_TAGS else t for t in tags))
 
 
 class Sweep:
@@ -450,7 +472,7 @@ class Sweep:
             res.extend({"out": o, "detail": d, "caught": c, "scaled": ""} for o, d, c in r)
         self.evaluations += len(jobs) + sum(1 for r in res if r["caught"])
         slow = [i for i, r in enumerate(res) if r["out"] in ("timeout", "host:MemoryError")]
-        big = [i for i in slow if "big" in jobs[i][2] or "x_ihuge" in jobs[i][2]]
+        big = [i for i in slow if any(t in HUGE_TAGS for t in jobs[i][2])]
         for i, (out, detail) in zip(big, self._alone([scaled_job(jobs[i]) for i in big])):
             if out in ("value", "error:ok"):
                 res[i]["scaled"] = out
